@@ -34,6 +34,11 @@ structure SideSt where
   /-- the pending action-timer action of each machine with its due time -/
   slots : List (Option (TAction × Int))
   blk : Option Blk
+  /-- diagnosis only: actions that were superseded or cancelled before they fired (machine, action, due) -/
+  stale : List (Nat × TAction × Int) := []
+  /-- diagnosis only: the blocking as the *code's* rule computes it from the same BlockingBegin
+      events (expiry, bypass flag of the latest updating action) -/
+  codeBlk : Option (Int × Bool) := none
   deriving Repr, Inhabited
 
 structure MonSt where
@@ -46,31 +51,50 @@ def MonSt.setSide (m : MonSt) (client : Bool) (x : SideSt) : MonSt := if client 
 
 def sideName (client : Bool) : String := if client then "client" else "server"
 
+/-- remember a pending action that is being overwritten or cancelled -/
+def retire (sd : SideSt) (m : Nat) : SideSt :=
+  match sd.slots[m]?.join with
+  | some (a, due) => { sd with stale := (m, a, due) :: sd.stale }
+  | none => sd
+
 /-- bookkeeping of the action timers: which action is pending for which machine -/
 def applyActs (t : Int) (sd : SideSt) : List TAction → SideSt
   | [] => sd
   | a :: r =>
     let sd := match a with
-      | .cancel m .action | .cancel m .all => { sd with slots := sd.slots.set m none }
-      | .sendPadding to _ _ m | .blockOutgoing to _ _ _ m => { sd with slots := sd.slots.set m (some (a, t + to * 1000)) }
+      | .cancel m .action | .cancel m .all => { (retire sd m) with slots := sd.slots.set m none }
+      | .sendPadding to _ _ m | .blockOutgoing to _ _ _ m =>
+        { (retire sd m) with slots := sd.slots.set m (some (a, t + to * 1000)) }
       | _ => sd
     applyActs t sd r
 
-/-- diagnostic only: a BlockOutgoing due at `t` whose BlockingBegin has not been seen yet -/
-def dueBlockNote (sd : SideSt) (t : Int) : String :=
-  match sd.slots.filterMap (fun x => match x with
-      | some (.blockOutgoing _ dur _ replace _, due) => if due == t then some (dur, replace) else none
-      | _ => none) with
-  | (dur, replace) :: _ => s!" (a BlockOutgoing with {durClass dur} duration {dur}us replace={replace} is due at this instant and its BlockingBegin has not been reported yet)"
-  | [] => ""
+/-- diagnosis: BlockOutgoing actions that have not fired according to the contract (still
+    pending, or superseded / cancelled) together with their due times -/
+def unfiredBlocks (sd : SideSt) : List (Nat × Nat × Bool × Bool × Int) :=
+  (sd.slots.zipIdx.filterMap fun (x, m) => match x with
+    | some (.blockOutgoing _ dur bypass replace _, due) => some (m, dur, bypass, replace, due)
+    | _ => none) ++
+  (sd.stale.filterMap fun (m, a, due) => match a with
+    | .blockOutgoing _ dur bypass replace _ => some (m, dur, bypass, replace, due)
+    | _ => none)
 
-/-- diagnostic only: a BlockOutgoing that is still pending (due after `t`) -/
-def pendingBlockNote (sd : SideSt) (t : Int) : String :=
-  match sd.slots.filterMap (fun x => match x with
-      | some (.blockOutgoing _ _ bypass replace _, due) => if due > t then some (due, bypass, replace) else none
-      | _ => none) with
-  | (due, bypass, replace) :: _ => s!"; a BlockOutgoing (bypass={bypass} replace={replace}) is pending but only due at {due}"
-  | [] => ""
+/-- diagnosis: a zero-duration BlockOutgoing that is due exactly now and whose BlockingBegin has
+    not been seen yet -/
+def zeroBlockDueNow (sd : SideSt) (t : Int) : Bool :=
+  (unfiredBlocks sd).any fun (_, dur, _, _, due) => dur == 0 && due == t
+
+/-- diagnosis: a BlockOutgoing that is not yet due (or was superseded) and that, executed early
+    by the code's rule, would explain a bypassable or differently expiring blocking now -/
+def earlyBlock (sd : SideSt) (t : Int) (needBypass : Bool) : Bool :=
+  (unfiredBlocks sd).any fun (_, dur, bypass, replace, due) =>
+    due > t && (!needBypass || bypass) &&
+      (replace || match sd.codeBlk with
+        | some (exp, _) => due + dur * 1000 > exp
+        | none => true)
+
+/-- diagnosis: an unfired block whose early-applied expiry is exactly `t` -/
+def earlyExpiryAt (sd : SideSt) (t : Int) : Bool :=
+  (unfiredBlocks sd).any fun (_, dur, _, _, due) => due + dur * 1000 == t && dur != 0
 
 /-- blocking that should have ended before time `t` -/
 def overdue (sd : SideSt) (t : Int) : Option Blk :=
@@ -78,34 +102,68 @@ def overdue (sd : SideSt) (t : Int) : Option Blk :=
   | some b => if t > b.expiry then some b else none
   | none => none
 
-/-- one observed event; `Except` carries the description of the violation -/
+/-- the code's blocking rule, for diagnosis -/
+def codeUpdate (cur : Option (Int × Bool)) (t : Int) (durNs : Nat) (bypass replace : Bool) : Option (Int × Bool) :=
+  match cur with
+  | none => if replace || durNs > 0 then some (t + durNs, bypass) else none
+  | some (exp, fl) => if replace || t + durNs > exp then some (t + durNs, bypass) else some (exp, fl)
+
+/-- one observed event; `Except` carries the description of the violation, prefixed by a
+    diagnosis tag computed from the trace and the recovered actions when one of the known
+    explanations applies:
+    `[F11-zero-duration]` a duration-0 BlockOutgoing (begin without end / end before begin),
+    `[F7-bypass-overwrite]` the code's flag (bypass of the latest updating action) allows what the
+    property's "all actions allowed bypass" forbids,
+    `[S1-early-exec]` an action that is not yet due (or was superseded) explains the behaviour if
+    it was executed early.  Details after ` | ` are not part of the key. -/
 def stepEv (st : MonSt) (x : EvActs) : Except String MonSt := do
   let e := x.ev
   let t := e.time
   for cl in [true, false] do
     if let some b := overdue (st.side cl) t then
-      throw s!"BlockingEnd missing: {sideName cl} blocking (last started or updated with {durClass b.lastDur} duration {b.lastDur}ns) expired at {b.expiry} but time moved to {t}"
+      let sd := st.side cl
+      let tag := if b.lastDur == 0 then "[F11-zero-duration] "
+        else if earlyBlock sd b.expiry false then "[S1-early-exec] " else ""
+      throw s!"{tag}BlockingEnd missing: {sideName cl} blocking expired but time moved on | last started or updated with {durClass b.lastDur} duration {b.lastDur}ns, expired at {b.expiry}, time moved to {t}"
   let sd := st.side e.client
   let sd ← match e.event with
     | .blockingBegin m =>
       match sd.slots[m]?.join with
       | some (.blockOutgoing _ dur bypass replace _, _) =>
-        pure { sd with blk := blockSpec sd.blk t (dur * 1000) bypass replace, slots := sd.slots.set m none }
-      | _ => throw s!"BlockingBegin for {sideName e.client} machine {m} at {t} without a pending BlockOutgoing"
+        pure { sd with blk := blockSpec sd.blk t (dur * 1000) bypass replace, slots := sd.slots.set m none,
+                       codeBlk := codeUpdate sd.codeBlk t (dur * 1000) bypass replace }
+      | _ =>
+        let tag := if sd.stale.any (fun (m', a, due) => m' == m && due == t && (match a with | .blockOutgoing .. => true | _ => false))
+          then "[S1-early-exec] " else ""
+        throw s!"{tag}BlockingBegin for {sideName e.client} machine without a pending BlockOutgoing | machine {m} at {t}"
     | .blockingEnd =>
+      let tag := if zeroBlockDueNow sd t then "[F11-zero-duration] "
+        else if earlyExpiryAt sd t then "[S1-early-exec] " else ""
       match sd.blk with
       | some b =>
-        if b.expiry == t then pure { sd with blk := none }
-        else throw s!"BlockingEnd on {sideName e.client} at {t} but the blocking expires at {b.expiry}{dueBlockNote sd t}"
-      | none => throw s!"BlockingEnd on {sideName e.client} at {t} without active blocking{dueBlockNote sd t}"
+        if b.expiry == t then pure { sd with blk := none, codeBlk := none }
+        else throw s!"{tag}BlockingEnd on {sideName e.client} at another time than the blocking expires | at {t}, expiry {b.expiry}"
+      | none => throw s!"{tag}BlockingEnd on {sideName e.client} without active blocking | at {t}"
     | .tunnelSent =>
       match sd.blk with
       | some b =>
         if (e.bypass && b.allBypass) || t ≥ b.expiry then pure sd
-        else throw s!"TunnelSent left the blocked {sideName e.client} at {t} (packet bypass={e.bypass} padding={e.containsPadding}, every blocking action allowed bypass={b.allBypass}, expiry {b.expiry}{pendingBlockNote sd t})"
+        else
+          -- the code's view now: blocks applied at their BlockingBegin so far, plus blocks that are
+          -- due at this very instant (executed, BlockingBegin reported later in the same instant)
+          let codeNow := ({ sd with stale := [] } |> unfiredBlocks).foldl (fun cb (_, dur, bypass, replace, due) =>
+            if due == t then codeUpdate cb t (dur * 1000) bypass replace else cb) sd.codeBlk
+          let codeAllows := match codeNow with
+            | some (_, fl) => fl
+            | none => false
+          let tag := if e.bypass && codeAllows then "[F7-bypass-overwrite] "
+            else if earlyBlock sd t e.bypass then "[S1-early-exec] " else ""
+          throw s!"{tag}TunnelSent left the blocked {sideName e.client} (packet bypass={e.bypass}) | at {t}, padding={e.containsPadding}, every blocking action allowed bypass={b.allBypass}, expiry {b.expiry}"
       | none => pure sd
     | .paddingSent m => pure { sd with slots := sd.slots.set m none }
     | _ => pure sd
+  -- forget superseded actions whose due time has passed
+  let sd := { sd with stale := sd.stale.filter fun (_, _, due) => due ≥ t }
   pure (st.setSide e.client (applyActs t sd x.acts))
 
 def runMon (st : MonSt) : List EvActs → Option String
@@ -116,7 +174,7 @@ def runMon (st : MonSt) : List EvActs → Option String
     | .ok st => runMon st r
 
 def init (nc ns : Nat) : MonSt :=
-  ⟨⟨List.replicate nc none, none⟩, ⟨List.replicate ns none, none⟩⟩
+  ⟨{ slots := List.replicate nc none, blk := none }, { slots := List.replicate ns none, blk := none }⟩
 
 /-- monitor over an annotated unfiltered trace -/
 def monitor (nc ns : Nat) (tr : List EvActs) : Option String := runMon (init nc ns) tr
